@@ -539,7 +539,7 @@ func c17Cli(c *core.Ctx) {
 	// ---------------------------------------------------------------- direction 1: every transition of the model
 	level, steps, profiles := 0, 3, "FALSE"
 	if !c.Quick() {
-		level, steps, profiles = 1, 4, "TRUE"
+		level, steps, profiles = 1, 3, "TRUE"
 	}
 	dump := filepath.Join(c.Work, "clioptions")
 	r, err := c.RunTLC(core.TLCOpts{Module: "MC_CliOptions", CfgText: fmt.Sprintf("SPECIFICATION Spec\nCONSTANTS Level = %d\n MaxSteps = %d\n Profiles = %s\nINVARIANTS Laws\nVIEW View\nCONSTRAINT Bound\nCHECK_DEADLOCK FALSE\n", level, steps, profiles),
